@@ -45,18 +45,18 @@ func parseJSON(input []byte) (*logEntry, error) {
 	}
 
 	// Parse hclog-specific objects
-	if v, ok := raw["@message"]; ok {
-		entry.Message = v.(string)
+	if v, ok := raw["@message"].(string); ok {
+		entry.Message = v
 		delete(raw, "@message")
 	}
 
-	if v, ok := raw["@level"]; ok {
-		entry.Level = v.(string)
+	if v, ok := raw["@level"].(string); ok {
+		entry.Level = v
 		delete(raw, "@level")
 	}
 
-	if v, ok := raw["@timestamp"]; ok {
-		t, err := time.Parse("2006-01-02T15:04:05.000000Z07:00", v.(string))
+	if v, ok := raw["@timestamp"].(string); ok {
+		t, err := time.Parse("2006-01-02T15:04:05.000000Z07:00", v)
 		if err != nil {
 			return nil, err
 		}
